@@ -175,4 +175,237 @@ def sliceExpr : String → Option Expr
   | "thin_plate" => some Slice.thin_plate
   | _ => none
 
+/-! ## Part 2 — transformers, regressors, surrogate discipline (polymorphic in the number type) -/
+
+section Num
+
+variable {α : Type} [Add α] [Sub α] [Mul α] [Div α] [Neg α] [OfNat α 0] [OfNat α 1]
+
+/-- `f 0 + … + f (n-1)` -/
+def sumTo : Nat → (Nat → α) → α
+  | 0, _ => 0
+  | n + 1, f => sumTo n f + f n
+
+/-- `f 0 * … * f (n-1)` -/
+def prodTo : Nat → (Nat → α) → α
+  | 0, _ => 1
+  | n + 1, f => prodTo n f * f n
+
+def npow (x : α) : Nat → α
+  | 0 => 1
+  | n + 1 => npow x n * x
+
+/-- The number `n` in `α`. -/
+def ofNat' (n : Nat) : α := sumTo n (fun _ => 1)
+
+abbrev Vec (α : Type) := Nat → α
+abbrev Mat (α : Type) := Nat → Nat → α
+
+/-- `A v` with `n` columns. -/
+def mulVec (n : Nat) (A : Mat α) (v : Vec α) : Vec α := fun i => sumTo n (fun j => A i j * v j)
+
+/-- `A B` with inner dimension `n`. -/
+def matMul (n : Nat) (A B : Mat α) : Mat α := fun i j => sumTo n (fun l => A i l * B l j)
+
+def idMat : Mat α := fun i j => if i = j then 1 else 0
+def diagMat (c : Vec α) : Mat α := fun i j => if i = j then c i else 0
+def transpose (A : Mat α) : Mat α := fun i j => A j i
+
+/-- A fitted transformer.
+* `affine d coef off`: `Scaler`/`MinMaxScaler`/`StandardScaler` after `fit`:
+  `transform = data @ diag(coef) + off`, `inverse_transform = (data - off) @ diag(1/coef)`.
+* `linear d k mean W`: a linear reduction such as `PCA` (`W` is `k × d`):
+  `transform = (data - mean) @ W.T`, `inverse_transform = data @ W + mean`. -/
+inductive Step (α : Type) where
+  | affine (d : Nat) (coef off : Vec α)
+  | linear (d k : Nat) (mean : Vec α) (W : Mat α)
+
+namespace Step
+
+def inDim : Step α → Nat
+  | affine d _ _ => d
+  | linear d _ _ _ => d
+
+def outDim : Step α → Nat
+  | affine d _ _ => d
+  | linear _ k _ _ => k
+
+def transform : Step α → Vec α → Vec α
+  | affine _ c o, x => fun i => x i * c i + o i
+  | linear d _ μ W, x => fun i => sumTo d (fun j => W i j * (x j - μ j))
+
+def inverse : Step α → Vec α → Vec α
+  | affine _ c o, y => fun i => (y i - o i) * (1 / c i)
+  | linear _ k μ W, y => fun j => sumTo k (fun i => y i * W i j) + μ j
+
+/-- `compute_jacobian` (constant for these maps). -/
+def jac : Step α → Mat α
+  | affine _ c _ => diagMat c
+  | linear _ _ _ W => W
+
+/-- `compute_jacobian_inverse`. -/
+def jacInv : Step α → Mat α
+  | affine _ c _ => diagMat (fun i => 1 / c i)
+  | linear _ _ _ W => transpose W
+
+end Step
+
+/-- `Pipeline.transform`: the steps in order. -/
+def pipeTransform (steps : List (Step α)) (x : Vec α) : Vec α :=
+  steps.foldl (fun v s => s.transform v) x
+
+/-- `Pipeline.inverse_transform`: the inverse steps in reverse order. -/
+def pipeInverse (steps : List (Step α)) (y : Vec α) : Vec α :=
+  steps.reverse.foldl (fun v s => s.inverse v) y
+
+/-- `Pipeline.compute_jacobian`: `jacobian = eye; for t: jacobian = t.compute_jacobian(data) @ jacobian`. -/
+def pipeJac (steps : List (Step α)) : Mat α :=
+  steps.foldl (fun J s => matMul s.inDim s.jac J) idMat
+
+/-- `Pipeline.compute_jacobian_inverse`: same with the inverse steps in reverse order. -/
+def pipeJacInv (steps : List (Step α)) : Mat α :=
+  steps.reverse.foldl (fun J s => matMul s.outDim s.jacInv J) idMat
+
+def pipeOutDim (steps : List (Step α)) (d : Nat) : Nat :=
+  steps.foldl (fun _ s => s.outDim) d
+
+/-! ### Fitting rules of the scalers -/
+
+section Fit
+variable [LT α] [DecidableRel (α := α) (· < ·)] [DecidableEq α]
+
+def minOf (n : Nat) (f : Nat → α) : α :=
+  match n with
+  | 0 => 0
+  | n + 1 => (List.range n).foldl (fun m i => if f (i + 1) < m then f (i + 1) else m) (f 0)
+
+def maxOf (n : Nat) (f : Nat → α) : α :=
+  match n with
+  | 0 => 0
+  | n + 1 => (List.range n).foldl (fun m i => if m < f (i + 1) then f (i + 1) else m) (f 0)
+
+def half : α := (1 : α) / ((1 : α) + 1)
+
+/-- `MinMaxScaler._fit` for one feature with minimum `lb` and range `delta`. -/
+def minMaxCoef (lb delta : α) : α :=
+  if delta = 0 then 1 / (if lb = 0 then 1 else lb) else 1 / delta
+
+def minMaxOff (lb delta : α) : α :=
+  if delta = 0 then (if lb = 0 then half else -half) else -lb / delta
+
+/-- `StandardScaler._fit` for one feature with mean `mean` and standard deviation `std`. -/
+def standardCoef (mean std : α) : α :=
+  if std = 0 then 1 / (if mean = 0 then 1 else mean) else 1 / std
+
+def standardOff (mean std : α) : α :=
+  if std = 0 then (if mean = 0 then 0 else -1) else -mean / std
+
+/-- `MinMaxScaler.fit` on `n` samples `data s j` of dimension `d`. -/
+def fitMinMax (n d : Nat) (data : Nat → Nat → α) : Step α :=
+  let lb : Vec α := fun j => minOf n (fun s => data s j)
+  let delta : Vec α := fun j => maxOf n (fun s => data s j) - lb j
+  Step.affine d (fun j => minMaxCoef (lb j) (delta j)) (fun j => minMaxOff (lb j) (delta j))
+
+def meanOf (n : Nat) (f : Nat → α) : α := sumTo n f / ofNat' n
+
+/-- Population variance (`numpy.std(0) ** 2`). -/
+def varOf (n : Nat) (f : Nat → α) : α :=
+  let m := meanOf n f
+  sumTo n (fun s => (f s - m) * (f s - m)) / ofNat' n
+
+/-- `StandardScaler.fit` given the standard deviations `std j` (the square roots of `varOf`). -/
+def fitStandard (n d : Nat) (data : Nat → Nat → α) (std : Vec α) : Step α :=
+  let mean : Vec α := fun j => meanOf n (fun s => data s j)
+  Step.affine d (fun j => standardCoef (mean j) (std j)) (fun j => standardOff (mean j) (std j))
+
+end Fit
+
+/-! ### Regressor wrapper: `predict = T_out⁻¹ ∘ g ∘ T_in` and `transform_jacobian` -/
+
+/-- `BaseMLSupervisedAlgo.predict` with group transformers `tin` (inputs), `tout` (outputs). -/
+def regPredict (tin tout : List (Step α)) (g : Vec α → Vec α) (x : Vec α) : Vec α :=
+  pipeInverse tout (g (pipeTransform tin x))
+
+/-- `BaseRegressor.predict_jacobian` (`transform_jacobian`):
+    `J_{T_out⁻¹} @ (J_g(T_in x) @ J_{T_in})`; `k` = transformed input dimension,
+    `m` = transformed output dimension. -/
+def regJac (tin tout : List (Step α)) (k m : Nat) (Jg : Vec α → Mat α) (x : Vec α) : Mat α :=
+  matMul m (pipeJacInv tout) (matMul k (Jg (pipeTransform tin x)) (pipeJac tin))
+
+/-- Linear regression `g z = W z + b` (`k` inputs). -/
+def linPredict (k : Nat) (W : Mat α) (b : Vec α) (z : Vec α) : Vec α :=
+  fun i => sumTo k (fun j => W i j * z j) + b i
+
+/-- `LinearRegressor._predict_jacobian`: the coefficients. -/
+def linJac (W : Mat α) : Vec α → Mat α := fun _ => W
+
+/-! ### Polynomial regression -/
+
+/-- The monomial `z^p = Π_j z_j^(p j)` of `k` inputs. -/
+def mono (k : Nat) (p : Nat → Nat) (z : Vec α) : α := prodTo k (fun j => npow (z j) (p j))
+
+/-- `PolynomialRegressor._predict`: `Σ_p coef i p * z^(pw p) + b i` over the `P` rows of the table
+    `pw` (`PolynomialFeatures.powers_`, without the bias). -/
+def polyPredict (P k : Nat) (pw : Nat → Nat → Nat) (coef : Mat α) (b : Vec α) (z : Vec α) : Vec α :=
+  fun i => sumTo P (fun p => coef i p * mono k (pw p) z) + b i
+
+/-- Row `p` minus one in column `idx` is the zero row (`mask_zero`). -/
+def decIsZero (k : Nat) (pw : Nat → Nat → Nat) (p idx : Nat) : Bool :=
+  pw p idx == 1 && (List.range k).all (fun j => j == idx || pw p j == 0)
+
+/-- Row `q` is row `p` minus one in column `idx` (`(powers == dpowers[i]).prod(axis=1) == 1`). -/
+def decMatches (k : Nat) (pw : Nat → Nat → Nat) (p q idx : Nat) : Bool :=
+  decide (1 ≤ pw p idx) &&
+    (List.range k).all (fun j => if j = idx then pw q j + 1 == pw p j else pw q j == pw p j)
+
+/-- `PolynomialRegressor._predict_jacobian`: for each input `idx`, the coefficients
+    `powers[:, idx] * coefs` of the differentiated monomials are moved to the row of the table that
+    holds the decremented powers (`jac_coefs`), or to the constant term (`jac_intercept`) when the
+    decremented row is zero; then `jac_intercept + Σ_q jac_coefs[:, q, idx] * z^(pw q)`. -/
+def polyJac (P k : Nat) (pw : Nat → Nat → Nat) (coef : Mat α) (z : Vec α) : Mat α :=
+  fun i idx =>
+    sumTo P (fun p => if decIsZero k pw p idx then ofNat' (pw p idx) * coef i p else 0)
+    + sumTo P (fun q =>
+        sumTo P (fun p =>
+          if !decIsZero k pw p idx && decMatches k pw p q idx then ofNat' (pw p idx) * coef i p else 0)
+        * mono k (pw q) z)
+
+/-! ### Surrogate discipline: projection of the Jacobian onto variable names -/
+
+/-- Offset of the `n`-th variable for the sizes `sizes` (prefix sum). -/
+def offsetOf (sizes : List Nat) (n : Nat) : Nat := (sizes.take n).foldl (· + ·) 0
+
+/-- `split_array_to_dict_of_arrays(jacobian, sizes, output_names, input_names)[o][i]`:
+    block of the `o`-th output variable and `i`-th input variable. -/
+def splitBlock (outSizes inSizes : List Nat) (J : Mat α) (o i : Nat) : Mat α :=
+  fun a b => J (offsetOf outSizes o + a) (offsetOf inSizes i + b)
+
+/-- `split_array_to_dict_of_arrays(prediction, sizes, output_names)[o]`. -/
+def splitVec (outSizes : List Nat) (v : Vec α) (o : Nat) : Vec α :=
+  fun a => v (offsetOf outSizes o + a)
+
+end Num
+
+/-! ### RBF network in `Float` (driver only; the real-analysis statement is in `Analysis/`) -/
+
+def normF (d : Nat) (x c : Nat → Float) : Float :=
+  Float.sqrt ((List.range d).foldl (fun acc j => acc + (x j - c j) * (x j - c j)) 0.0)
+
+/-- `Rbf.__call__ + y_average`: `Σ_k w_k φ(‖x − c_k‖) + avg`. -/
+def rbfPredictF (phi : Expr) (eps : Float) (n d : Nat) (centres : Nat → Nat → Float)
+    (w : Nat → Nat → Float) (avg : Nat → Float) (x : Nat → Float) (i : Nat) : Float :=
+  (List.range n).foldl (fun acc k =>
+    acc + w k i * phi.evF (fun v => match v with | 1 => normF d x (centres k) | 2 => eps | _ => 0.0)) 0.0
+  + avg i
+
+/-- `RBFRegressor._predict_jacobian`: `Σ_k w_k der(x − c_k, ‖x − c_k‖, eps)`. -/
+def rbfJacF (der : Expr) (eps tol : Float) (n d : Nat) (centres : Nat → Nat → Float)
+    (w : Nat → Nat → Float) (x : Nat → Float) (i j : Nat) : Float :=
+  (List.range n).foldl (fun acc k =>
+    acc + w k i * der.evF (fun v => match v with
+      | 0 => x j - centres k j
+      | 1 => normF d x (centres k)
+      | 2 => eps
+      | _ => tol)) 0.0
+
 end GV.C18
